@@ -1265,6 +1265,97 @@ Proof.
   repeat split; assumption.
 Qed.
 
+(* ------------------------------------------------------------------ the sparse, absolute-time recording *)
+Definition srec_hist (sh : shape) (h : list (Z * node)) (buf : sbuffer) : sbuffer :=
+  fold_left (fun b tl => srecorder sh (fst tl) (snd tl) b) h buf.
+
+Definition entries_of (sh : shape) (h : list (Z * node)) : sbuffer :=
+  map (fun tl => (fst tl, capture sh (snd tl))) h.
+
+(* the evaluations of the sparse replay node in which its output ticks (run_sreplay of Delta.v
+   without the end of the run and the printing) *)
+Fixpoint sreplay_run (sh : shape) (fuel : nat) (now : Z) (ents : sbuffer) (out : node) : list (Z * node) :=
+  match fuel with
+  | O => []
+  | S f =>
+      let (ents', out') := sparse_scan sh now ents (commit sh out) in
+      let here := if nmod out' then [(now, out')] else [] in
+      match ents' with
+      | (w, _) :: _ => if now <? w then here ++ sreplay_run sh f w ents' out' else here
+      | [] => here
+      end
+  end.
+
+Lemma srec_hist_chain sh : wf_shape sh -> forall h s len buf, good sh s -> chain sh s len h ->
+  srec_hist sh h buf = buf ++ entries_of sh h.
+Proof.
+  intros Hwf. induction h as [|[t live] r IH]; intros s len buf Hg Hc; cbn [srec_hist fold_left entries_of map].
+  - rewrite app_nil_r. reflexivity.
+  - destruct Hc as (_ & Htk & Hc). destruct (tick_flags sh Hwf s live Hg Htk) as [Hm _].
+    unfold srecorder at 2. cbn [fst snd]. rewrite Hm.
+    fold (srec_hist sh r (buf ++ [(t, capture sh live)])).
+    rewrite (IH (commit sh live) _ _ (good_commit_tick sh s live Hwf Hg Htk) Hc).
+    rewrite <- app_assoc. reflexivity.
+Qed.
+
+(* replaying from the time of the first remaining entry *)
+Lemma sreplay_at sh : wf_shape sh -> forall h s out len t live fuel,
+  good sh s -> commit sh out = s -> chain sh s len ((t, live) :: h) -> MIN_ST <= t -> (length h < fuel)%nat ->
+  let run := sreplay_run sh fuel t (entries_of sh ((t, live) :: h)) out in
+  map fst run = map fst ((t, live) :: h) /\
+  map (fun to => capture sh (snd to)) run = map (fun tl => capture sh (snd tl)) ((t, live) :: h) /\
+  map (fun to => commit sh (snd to)) run = map (fun tl => commit sh (snd tl)) ((t, live) :: h).
+Proof.
+  intros Hwf. induction h as [|[t2 live2] r IH]; intros s out len t live fuel Hg Ho Hc Ht Hf;
+    destruct fuel as [|f]; try lia; destruct Hc as (Hlen & Htk & Hc);
+    destruct (recreates_all sh Hwf s live Hg Htk) as (Rm & Rv & Lm & Lv & Rc & Rcap & Rg).
+  - cbn [entries_of map fst snd sreplay_run sparse_scan]. rewrite Z.ltb_irrefl. rewrite Ho.
+    cbn [sparse_scan]. rewrite Rm. cbn. rewrite Rcap, Rc. repeat split; reflexivity.
+  - assert (Ht2 : t < t2).
+    { destruct Hc as (Hl2 & _). unfold MIN_ST in *. lia. }
+    cbn [entries_of map fst snd sreplay_run sparse_scan]. rewrite Z.ltb_irrefl. rewrite Ho.
+    cbn [sparse_scan]. assert (E1 : (t2 <? t) = false) by lia. assert (E2 : (t <? t2) = true) by lia.
+    rewrite E1, E2, Rm.
+    specialize (IH (commit sh live) (apply sh s (capture sh live)) _ t2 live2 f Rg Rc Hc).
+    cbn zeta in IH. cbn [entries_of map fst snd] in IH.
+    destruct IH as (I1 & I2 & I3); [unfold MIN_ST in *; lia|cbn [length] in Hf; lia|].
+    rewrite ?E2. cbn [app map fst snd]. rewrite I1, I2, I3, Rcap, Rc. repeat split; reflexivity.
+Qed.
+
+(* Recording a history into the sparse (time, delta) list and replaying it from any start time
+   not later than the first tick reproduces the ticks at their absolute times, with the same
+   deltas and values. *)
+Theorem sparse_replay_record_id_gen sh h rs : wf_shape sh -> chain sh (fresh sh) 0 h ->
+  match h with (t, _) :: _ => rs <= t | [] => True end ->
+  let ents := srec_hist sh h [] in
+  let run := sreplay_run sh (S (length ents)) rs ents (fresh sh) in
+  ents = entries_of sh h /\
+  map fst run = map fst h /\
+  map (fun to => capture sh (snd to)) run = map snd ents /\
+  map (fun to => commit sh (snd to)) run = map (fun tl => commit sh (snd tl)) h.
+Proof.
+  intros Hwf Hc Hrs. pose proof (good_fresh sh Hwf) as Hg. cbn zeta.
+  rewrite (srec_hist_chain sh Hwf h (fresh sh) 0 [] Hg Hc). cbn [app].
+  split; [reflexivity|].
+  assert (Hlen : length (entries_of sh h) = length h) by (unfold entries_of; apply map_length).
+  assert (Hsnd : map snd (entries_of sh h) = map (fun tl => capture sh (snd tl)) h).
+  { unfold entries_of. rewrite map_map. reflexivity. }
+  rewrite Hlen, Hsnd.
+  destruct h as [|[t live] r].
+  - cbn [length entries_of map sreplay_run sparse_scan]. rewrite (commit_good _ _ Hg), (good_nmod _ _ Hg).
+    repeat split; reflexivity.
+  - assert (Ht : MIN_ST <= t) by (destruct Hc as (H & _); cbn in H; unfold MIN_ST in *; lia).
+    destruct (Z.eq_dec rs t) as [->|Hne].
+    + apply (sreplay_at sh Hwf r (fresh sh) (fresh sh) 0%nat t live (S (length ((t, live) :: r))) Hg (commit_good _ _ Hg) Hc Ht).
+      cbn [length]. lia.
+    + (* the node first wakes at rs < t, finds nothing due and re-arms for t *)
+      cbn [sreplay_run entries_of map fst snd sparse_scan].
+      assert (E1 : (t <? rs) = false) by lia. assert (E2 : (rs <? t) = true) by lia.
+      rewrite E1. rewrite (commit_good _ _ Hg). rewrite E2. rewrite E2. rewrite (good_nmod _ _ Hg). cbn [app].
+      apply (sreplay_at sh Hwf r (fresh sh) (fresh sh) 0%nat t live (length ((t, live) :: r)) Hg (commit_good _ _ Hg) Hc Ht).
+      cbn [length]. lia.
+Qed.
+
 (* ------------------------------------------------------------------ the side conditions are necessary *)
 (* Each statement below is the unconditional version of the round trip, refuted on a concrete
    history; every witness is replayed on the implementation (docs/notes-delta.md). *)
@@ -1299,19 +1390,64 @@ Lemma apply_capture_unconditional_refuted_unset_child :
     veq sh live (apply sh pre (capture sh live)) = false.
 Proof. exists (TSD TS), (fresh (TSD TS)), [mkOp [] 8 3]. split; [apply good_fresh; exact I|vm_compute; reflexivity]. Qed.
 
-(* D. child changed, key erased, key re-inserted in one cycle: the slot's modified_ bit is
-      cleared by the erase and not set again (the child does not notify twice), so the delta
-      omits the change *)
+(* D (repaired in the tree; kept as a named variant).  The insert_key rule BEFORE the repair:
+   a resurrected slot is not marked modified again.  Child changed, key erased, key re-inserted
+   in one cycle: remove_key cleared the slot's modified_ bit, the child (already marked this
+   cycle) does not notify twice, so the delta omitted the change. *)
+Definition dict_at_old (e : shape) (k : Z) (n : node) : node :=
+  match n with
+  | NDict _ _ items =>
+      match get k items with
+      | Some (f, c) => if f_live f then n else NDict true true (put k (resurrect_flags f c, c) items)
+      | None => NDict true true (put k (flags0, fresh e) items)
+      end
+  | _ => n
+  end.
+Definition dict_child_old (e : shape) (k : Z) (g : node -> node) (n : node) : node :=
+  match dict_at_old e k n with
+  | NDict m v items =>
+      match get k items with
+      | Some (f, c) =>
+          let c' := g c in
+          if negb (nmod c) && nmod c' then NDict true true (put k (slot_child_modified f c', c') items)
+          else NDict m v (put k (f, c') items)
+      | None => NDict m v items
+      end
+  | x => x
+  end.
+Definition leaf_op_old (sh : shape) (code arg : Z) (n : node) : node :=
+  match sh with
+  | TSD e => if code =? 5 then dict_touch n else if code =? 6 then dict_clear n
+             else if code =? 7 then dict_erase arg n else dict_at_old e arg n
+  | _ => leaf_op sh code arg n
+  end.
+Fixpoint do_op_old (path : list Z) (sh : shape) (code arg : Z) (n : node) : node :=
+  match path with
+  | [] => leaf_op_old sh code arg n
+  | p :: rest =>
+      match child_shape sh p with
+      | Some c =>
+          match sh with
+          | TSD e => dict_child_old e p (do_op_old rest c code arg) n
+          | _ => idx_child (Z.to_nat p) (do_op_old rest c code arg) n
+          end
+      | None => n
+      end
+  end.
+Definition run_ops_old (sh : shape) (ops : list sop) (n : node) : node :=
+  fold_left (fun s o => do_op_old (o_path o) sh (o_code o) (o_arg o) s) ops n.
+
 Definition wD_pre := commit (TSD TSS) (run_ops (TSD TSS) [mkOp [1] 3 10] (fresh (TSD TSS))).
-Lemma apply_capture_unconditional_refuted_reinserted_key :
+Definition wD_ops := [mkOp [1] 3 12; mkOp [] 7 1; mkOp [] 8 1].
+
+Lemma wD_pre_good : good (TSD TSS) wD_pre.
+Proof. vm_compute. repeat split; try exact I. constructor; [|constructor]. cbn. repeat split; exact I. Qed.
+
+Lemma apply_capture_old_rule_refuted_reinserted_key :
   exists sh pre ops, good sh pre /\
-    let live := run_ops sh ops pre in
+    let live := run_ops_old sh ops pre in
     veq sh live (apply sh pre (capture sh live)) = false.
-Proof.
-  exists (TSD TSS), wD_pre, [mkOp [1] 3 12; mkOp [] 7 1; mkOp [] 8 1].
-  split; [|vm_compute; reflexivity].
-  vm_compute. repeat split; try exact I. constructor; [|constructor]. cbn. repeat split; exact I.
-Qed.
+Proof. exists (TSD TSS), wD_pre, wD_ops. split; [exact wD_pre_good|vm_compute; reflexivity]. Qed.
 
 (* ------------------------------------------------------------------ sets: EVERY mutation script *)
 (* the slot-storage invariant of a set during a cycle, against its pre-tick elements *)
@@ -1504,6 +1640,17 @@ Definition ex2_hist := [(2, ex2_l1); (3, ex2_l2); (7, ex2_l3)].
 
 Example ex2_chain : chain ex2_sh (fresh ex2_sh) 0 ex2_hist.
 Proof. vm_compute. tick_solve. Qed.
+
+(* under the repaired insert_key rule the old witness of finding D is an ordinary tick:
+   child changed, key erased, key re-inserted in one cycle (also for a key that is new in the cycle) *)
+Definition ex3_sh := TSD TSS.
+Definition ex3_l1 := run_ops ex3_sh [mkOp [1] 3 10] (fresh ex3_sh).
+Definition ex3_l2 := run_ops ex3_sh [mkOp [1] 3 12; mkOp [] 7 1; mkOp [] 8 1; mkOp [2] 3 20; mkOp [] 7 2; mkOp [2] 3 21] (commit ex3_sh ex3_l1).
+Example ex3_chain : chain ex3_sh (fresh ex3_sh) 0 [(1, ex3_l1); (2, ex3_l2)].
+Proof. vm_compute. tick_solve. Qed.
+Example ex3_not_under_old_rule :
+  capture ex3_sh (run_ops_old ex3_sh [mkOp [1] 3 12; mkOp [] 7 1; mkOp [] 8 1] (commit ex3_sh ex3_l1)) = DDict [] [].
+Proof. vm_compute. reflexivity. Qed.
 
 Example ex2_wf : wf_shape ex2_sh.
 Proof. cbn. repeat split; lia. Qed.
